@@ -3,7 +3,7 @@
    result with what the implementation returned for the same inputs. No proofs here. *)
 From Coq Require Import ZArith List Bool String.
 From Strand Require Import Base.ZUtil Model.Outcome Model.Codec Model.Sha512 Model.Backend
-  Model.ZBackend Model.Zkp Model.Wire Model.Rng.
+  Model.ZBackend Model.Zkp Model.Wire Model.Rng Model.Shuffler Model.Keymaker.
 Import ListNotations.
 Open Scope list_scope.
 Open Scope Z_scope.
@@ -257,6 +257,141 @@ Section Exec.
     | [VZ n; VB s] =>
         if opis op "gen_permutation" then
           Some (omap (fun pr => VL [v_Zs (fst pr); consumed s (snd pr)]) (gen_permutation (Z.to_nat n) s))
+        else None
+    | _ => None
+    end.
+
+  (* ---------- shuffle ---------- *)
+  Definition to_wire (p : Shuffler.sproof B) : Wire.sproof :=
+    let t := pf_t B p in let s := pf_s B p in
+    Wire.Build_sproof (t1 B t) (t2 B t) (t3 B t) (t41 B t) (t42 B t) (t_hats B t)
+                      (s1 s) (s2 s) (s3 s) (s4 s) (s_hats s) (s_primes s) (pf_cs B p) (pf_c_hats B p).
+  Definition of_wire (w : Wire.sproof) : Shuffler.sproof B :=
+    Shuffler.Build_sproof B
+      (Build_commitments B (sp_t1 w) (sp_t2 w) (sp_t3 w) (sp_t41 w) (sp_t42 w) (sp_t_hats w))
+      (Build_responses (sp_s1 w) (sp_s2 w) (sp_s3 w) (sp_s4 w) (sp_s_hats w) (sp_s_primes w))
+      (sp_cs w) (sp_c_hats w).
+
+  Definition exec_shuffle (op : string) (args : list val) : option val :=
+    match args with
+    | [VZ n; VB seed] =>
+        if opis op "generators" then Some (omap v_Zs (generators K fl P (Z.to_nat n) seed)) else None
+    | [VZ pk; VL perm; VL cs; VL rs] =>
+        if opis op "apply_permutation_r" then
+          match gZs perm, g_cts cs, gZs rs with
+          | Some perm', Some cs', Some rs' =>
+              Some (omap (fun o => VL [VL (map v_ct (fst o)); v_Zs (snd o)]) (apply_permutation B pk perm' cs' rs'))
+          | _, _, _ => None
+          end
+        else None
+    | [VZ pk; VL gens; VL es; VL eps; VL rps; VL perm; VB label; VL draws] =>
+        if opis op "gen_proof_r" then
+          match gZs gens, g_cts es, g_cts eps, gZs rps, gZs perm, gZs draws with
+          | Some gens', Some es', Some eps', Some rps', Some perm', Some draws' =>
+              Some (omap (fun p => VB (wr_proof fl (to_wire p))) (gen_proof B pk gens' es' eps' rps' perm' label draws'))
+          | _, _, _, _, _, _ => None
+          end
+        else None
+    | [VZ pk; VL gens; VB pfb; VL es; VL eps; VB label] =>
+        if opis op "check_proof" then
+          match gZs gens, g_cts es, g_cts eps with
+          | Some gens', Some es', Some eps' =>
+              match de_proof K fl P pfb with
+              | Ok w => Some (omap VBool (check_proof B pk gens' (of_wire w) es' eps' label))
+              | Err => Some VErr
+              | Panic => Some VPanic
+              end
+          | _, _, _ => None
+          end
+        else None
+    | [VZ pk; VL es; VL eps; VL cs; VZ n; VB label] =>
+        if opis op "shuffle_us" then
+          match g_cts es, g_cts eps, gZs cs with
+          | Some es', Some eps', Some cs' => Some (v_Zs (shuffle_us B es' eps' cs' (Z.to_nat n) label))
+          | _, _, _ => None
+          end
+        else None
+    | [VZ pk; VL es; VL eps; VB pfb; VB label] =>
+        if opis op "shuffle_challenge" then
+          match g_cts es, g_cts eps with
+          | Some es', Some eps' =>
+              match de_proof K fl P pfb with
+              | Ok w => let p := of_wire w in
+                        Some (VZ (shuffle_challenge B es' eps' (pf_cs B p) (pf_c_hats B p) pk (pf_t B p) label))
+              | Err => Some VErr
+              | Panic => Some VPanic
+              end
+          | _, _ => None
+          end
+        else None
+    | _ => None
+    end.
+
+  (* ---------- keymaker / threshold ---------- *)
+  Fixpoint g_cps (l : list val) : option (list (cproof B)) :=
+    match l with
+    | [] => Some []
+    | v :: r => match g_cp v, g_cps r with Some c, Some cs => Some (c :: cs) | _, _ => None end
+    end.
+  Fixpoint g_LLZ (l : list val) : option (list (list Z)) :=
+    match l with
+    | [] => Some []
+    | v :: r => match gLZ v, g_LLZ r with Some c, Some cs => Some (c :: cs) | _, _ => None end
+    end.
+
+  Definition exec_km (op : string) (args : list val) : option val :=
+    match args with
+    | [VZ sk; VB label; VZ r] =>
+        if opis op "km_share_r" then
+          let '(pk, pf) := km_share B sk label r in Some (VL [VZ pk; v_schnorr pf]) else None
+    | [VZ pk; VL pf; VB label] =>
+        if opis op "km_verify_share" then
+          match g_schnorr (VL pf) with Some p => Some (VBool (km_verify_share B pk p label)) | None => None end
+        else None
+    | [VL l] =>
+        if opis op "combine_pks" then match gZs l with Some pks => Some (of_outZ (combine_pks B pks)) | None => None end else
+        if opis op "gen_coefficients_r" then
+          match gZs l with
+          | Some ds => let '(cf, cm) := gen_coefficients B ds in Some (VL [v_Zs cf; v_Zs cm])
+          | None => None end
+        else None
+    | [VZ sk; VL c; VB label; VZ r] =>
+        if opis op "km_decryption_factor_r" then
+          match g_ct (VL c) with
+          | Some c' => let '(f, pf) := km_decryption_factor B sk c' label r in Some (VL [VZ f; v_cp pf])
+          | None => None end
+        else None
+    | [VL a; VL b] =>
+        if opis op "joint_dec" then
+          match gZs a, g_ct (VL b) with Some decs, Some c => Some (of_outZ (joint_dec B decs c)) | _, _ => None end else
+        if opis op "joint_dec_many" then
+          match g_LLZ a, g_cts b with Some decs, Some cs => Some (omap v_Zs (joint_dec_many B decs cs)) | _, _ => None end
+        else None
+    | [VZ pk; VL cs; VL decs; VL proofs; VB label] =>
+        if opis op "verify_decryption_factors" then
+          match g_cts cs, gZs decs, g_cps proofs with
+          | Some cs', Some decs', Some pfs => Some (omap VBool (verify_decryption_factors B pk cs' decs' pfs label))
+          | _, _, _ => None end
+        else None
+    | [VZ a; VZ t; VL coeffs] =>
+        match gZs coeffs with
+        | Some cf =>
+            if opis op "eval_poly" then Some (of_outZ (eval_poly B a (Z.to_nat t) cf)) else
+            if opis op "compute_peer_share" then Some (of_outZ (compute_peer_share B a (Z.to_nat t) cf)) else None
+        | None => None end
+    | [VL comms; VZ t; VZ recv] =>
+        if opis op "verification_key_factor" then
+          match gZs comms with Some cm => Some (VZ (verification_key_factor B cm (Z.to_nat t) recv)) | None => None end
+        else None
+    | [VL c; VZ share; VZ vk; VB label; VZ r] =>
+        if opis op "th_decryption_factor_r" then
+          match g_ct (VL c) with
+          | Some c' => let '(f, pf) := th_decryption_factor B c' share vk label r in Some (VL [VZ f; v_cp pf])
+          | None => None end
+        else None
+    | [VZ trustee; VL present] =>
+        if opis op "lagrange" then
+          match gZs present with Some ps => Some (of_outZ (lagrange B trustee ps)) | None => None end
         else None
     | _ => None
     end.
